@@ -344,6 +344,13 @@ def _r16_4(ctx, fx, mod_, ty, okm, tag):
             ctx.ob("R16.4", tag + "new/peers_to_succeed>=1-for-every-quorum", _positive(fn, o), site=fn.site(n), cfg=fx.cfg,
                    detail="with a required count of 0 and no usable target the context reports success although nothing was sent; every arm of the "
                           "quorum match must yield a value >= 1 (constant, NonZero::get, max(.., 1), min of such)")
+            # the quorum is counted over the set that is tracked: pending_peers is a set (a peer named twice is one entry, it can
+            # succeed once), so the base of the quorum is that set's len(), not the length of the list as given
+            rs = guards.rootstrs(fn, o)
+            base_set = any(re.search(r"HashSet(<.*>)?::len$", x) for x in rs)
+            base_vec = any(re.search(r"Vec(<.*>)?::len$", x) for x in rs)
+            ctx.ob("R16.4", tag + "new/quorum-counted-over-the-deduplicated-target-set", base_set and not base_vec, site=fn.site(n), cfg=fx.cfg,
+                   detail="len() sources of peers_to_succeed: %s" % sorted(x for x in rs if x.endswith("::len")))
             z = s_["rv"]["ops"][s_["rv"]["fields"].index("n_succeeded")] if "n_succeeded" in s_["rv"]["fields"] else None
             ctx.ob("R16.4", tag + "new/n_succeeded-starts-at-0", z is not None and fn.const_value(z) == 0, site=fn.site(n), cfg=fx.cfg)
     fn = ctx.fn(fx, T + "is_succeded", "R16.4")
